@@ -9,6 +9,7 @@ import (
 	"os"
 	"strconv"
 	"strings"
+	"sync"
 )
 
 // A generator produces inputs (op, input); an observer runs the implementation on one input
@@ -89,7 +90,31 @@ func (r *rng) intn(n int) int {
 
 func (r *rng) rangeInt(lo, hi int) int { return lo + r.intn(hi-lo+1) }
 func (r *rng) chance(pct int) bool     { return r.intn(100) < pct }
-func pick[T any](r *rng, xs []T) T      { return xs[r.intn(len(xs))] }
+func pick[T any](r *rng, xs []T) T     { return xs[r.intn(len(xs))] }
+
+type caseIn struct{ id, op, input string }
+
+// addBatch observes many cases concurrently (observers that run subprocesses) and writes the
+// lines in the given order.
+func (c *caseWriter) addBatch(items []caseIn) []string {
+	res := make([]string, len(items))
+	var wg sync.WaitGroup
+	sem := make(chan struct{}, 16)
+	for i := range items {
+		wg.Add(1)
+		sem <- struct{}{}
+		go func(i int) {
+			defer wg.Done()
+			defer func() { <-sem }()
+			res[i] = observers[items[i].op](items[i].input)
+		}(i)
+	}
+	wg.Wait()
+	for i, it := range items {
+		fmt.Fprintf(c.w, "%s\t%s\t%s\t%s\n", it.id, it.op, it.input, res[i])
+	}
+	return res
+}
 
 func replay() {
 	sc := bufio.NewScanner(os.Stdin)
@@ -97,11 +122,13 @@ func replay() {
 	w := bufio.NewWriterSize(os.Stdout, 1<<20)
 	defer w.Flush()
 	cw := &caseWriter{w}
+	var items []caseIn
 	for sc.Scan() {
 		f := strings.SplitN(sc.Text(), "\t", 4)
 		if len(f) < 3 {
 			continue
 		}
-		cw.add(f[0], f[1], f[2])
+		items = append(items, caseIn{f[0], f[1], f[2]})
 	}
+	cw.addBatch(items)
 }
